@@ -312,6 +312,25 @@ PROPS["C11"] = {
     "explanation": "Sender.tla models concurrent exchanges with one peer (map lookup, context-aware lock, stream creation, write, read bounded by timeout/context, reset-and-drop on any failure, single retry, disconnect replacing the sender object and invalidating the old one) against a remote that answers any outstanding request at any later time or never, and is model-checked for own-reply, serialization and at most one outstanding request per live stream with three negative controls; the real sender is driven by concurrent SendRequest/SendMessage/OnDisconnect calls with every environment step chosen by DFS (small scenarios) or a seeded chooser; TLC validates the wire-level traces against SenderTrace.tla.",
 }
 
+PROPS["C16"] = {
+    "exhaustive": [
+        {"spec": "FullRTSwap.tla", "cfg": "FullRTSwap_fixed.cfg"},
+        {"spec": "FullRTSwap.tla", "cfg": "FullRTSwap_neg_sequential.cfg", "expect": "violation"},
+        {"spec": "Crawler.tla", "cfg": "Crawler_quick.cfg"},
+        {"spec": "Crawler.tla", "cfg": "Crawler_thorough.cfg", "tier": "thorough", "timeout": 3000, "heap": "20g"},
+        {"spec": "Crawler.tla", "cfg": "Crawler_neg_dupseed.cfg", "expect": "violation"},
+    ],
+    "drivers": [{"test": "TestFullRT", "trace_spec": "FullRTTrace.tla", "trace_cfg": "FullRTTrace.cfg", "inv_cfg": {"C16": "FullRTTrace_C16.cfg"}}],
+    "assumptions": [
+        "the crawl result is installed through the public WithCrawler option by a scripted crawler; the crawled set the result is judged against is what the client reports as its table (Stat), which must contain every scripted peer",
+        "IP groups are IPv4 /16 groups assigned by construction (5.g.x.y), never legacy class-A ranges; IPv6/ASN grouping is not exercised",
+        "reader/swap interleavings are driven through the verif hook points in fullrt/dht.go (build tag verif)",
+        "the crawler runs over a scripted message sender and dialer; every reply order is a choice; the crawler's own stream handling is not part of this check",
+        "an operation counts as hung when it has not returned after 2 virtual hours, or when the child process makes no progress for 30 s of real time (a busy loop holds the runtime's clock)",
+    ],
+    "explanation": "FullRTSwap.tla models the three-lock snapshot (reader and swap lock steps) and Crawler.tla the crawl work list (seeding, dispatch, one result per job, new peers appended) over all small graphs, failing sets and seed lists with repetitions; both are model-checked with negative controls; the real FullRT answers closest-peers queries for random crawled sets with IP groups, K and diversity limits and TLC compares every result with the set-theoretic definition (FullRTTrace.tla); a reader is raced against the installation of a second crawl result under every interleaving of their lock steps; the real DefaultCrawler crawls scripted graphs with failing peers, repeated seeds and any reply order; every public operation runs on an empty or tiny table with construction options missing.",
+}
+
 
 def overlay_file(scratch, name):
     """Writes the -overlay json for an internal-package driver (add-only mappings)."""
@@ -1082,7 +1101,133 @@ def mut_c11_two_streams(run):
     return None
 
 
+def _c16(run, kind):
+    return run[0].get("kind") == kind
+
+
+def mut_c16_unsorted(run):
+    if not _c16(run, "closest"):
+        return None
+    for i, ev in enumerate(run):
+        if ev["e"] == "Closest" and len(ev["result"]) >= 2:
+            r = copy.deepcopy(run)
+            r[i]["result"][0], r[i]["result"][1] = ev["result"][1], ev["result"][0]
+            return r
+    return None
+
+
+def mut_c16_not_nearest(run):
+    # limit disabled: dropping the nearest peer breaks exactness
+    if not _c16(run, "closest") or run[0]["limit"] != 0:
+        return None
+    for i, ev in enumerate(run):
+        if ev["e"] == "Closest" and len(ev["result"]) >= 1:
+            r = copy.deepcopy(run)
+            r[i]["result"] = ev["result"][1:]
+            return r
+    return None
+
+
+def mut_c16_stranger(run):
+    if not _c16(run, "closest"):
+        return None
+    for i, ev in enumerate(run):
+        if ev["e"] == "Closest" and len(ev["result"]) >= 1 and len(ev["result"]) < run[0]["K"]:
+            r = copy.deepcopy(run)
+            r[i]["result"] = ev["result"] + [len(ev["rankof"]) + 5]
+            return r
+    return None
+
+
+def mut_c16_group(run):
+    # a result that exceeds the per-group limit: put a same-group peer in
+    if not _c16(run, "closest") or run[0]["limit"] == 0:
+        return None
+    groups = run[0]["groups"]
+    lim = run[0]["limit"]
+    for i, ev in enumerate(run):
+        if ev["e"] != "Closest":
+            continue
+        peer_of = {rk: j for j, rk in enumerate(ev["rankof"])}
+        for g in {x for gs in groups for x in gs}:
+            members = sorted(rk for rk, j in peer_of.items() if g in groups[j])
+            if len(members) > lim and lim + 1 <= run[0]["K"]:
+                r = copy.deepcopy(run)
+                r[i]["result"] = members[: lim + 1]
+                return r
+    return None
+
+
+def mut_c16_crawl_twice(run):
+    if not _c16(run, "crawl"):
+        return None
+    for i, ev in enumerate(run):
+        if ev["e"] == "Crawl":
+            for p, c in enumerate(ev["connects"]):
+                if c == 1:
+                    r = copy.deepcopy(run)
+                    r[i]["connects"][p] = 2
+                    return r
+    return None
+
+
+def mut_c16_no_outcome(run):
+    if not _c16(run, "crawl"):
+        return None
+    for i, ev in enumerate(run):
+        if ev["e"] == "Crawl":
+            for p, c in enumerate(ev["connects"]):
+                if c == 1:
+                    r = copy.deepcopy(run)
+                    r[i]["ok"][p], r[i]["fail"][p] = 0, 0
+                    return r
+    return None
+
+
+def mut_c16_unreached(run):
+    if not _c16(run, "crawl"):
+        return None
+    for i, ev in enumerate(run):
+        if ev["e"] == "Crawl":
+            for p, c in enumerate(ev["connects"]):
+                if c == 1:
+                    r = copy.deepcopy(run)
+                    r[i]["connects"][p], r[i]["ok"][p], r[i]["fail"][p] = 0, 0, 0
+                    return r
+    return None
+
+
+def mut_c16_op_panic(run):
+    if not _c16(run, "ops"):
+        return None
+    for i, ev in enumerate(run):
+        if ev["e"] == "Op" and ev["panic"] == "":
+            r = copy.deepcopy(run)
+            r[i]["panic"] = "injected"
+            return r
+    return None
+
+
+def mut_c16_swap_mix(run):
+    # the racing reader returns the peers common to both crawls only
+    if not _c16(run, "swap"):
+        return None
+    a, b, rankof, K = set(run[0]["a"]), set(run[0]["b"]), run[0]["rankof"], run[0]["K"]
+    common = sorted(rankof[i - 1] for i in a & b)[:K]
+    na = sorted(rankof[i - 1] for i in a)[:K]
+    nb = sorted(rankof[i - 1] for i in b)[:K]
+    if common == na or common == nb or run[0]["limit"] != 0:
+        return None
+    for i, ev in enumerate(run):
+        if ev["e"] == "SwapResult":
+            r = copy.deepcopy(run)
+            r[i]["result"] = common
+            return r
+    return None
+
+
 MUTATIONS = {
+    "C16": [mut_c16_unsorted, mut_c16_not_nearest, mut_c16_stranger, mut_c16_group, mut_c16_crawl_twice, mut_c16_no_outcome, mut_c16_unreached, mut_c16_op_panic, mut_c16_swap_mix],
     "C11": [mut_c11_crossed, mut_c11_late_success, mut_c11_pipelined, mut_c11_reuse, mut_c11_not_reset, mut_c11_two_streams],
     "C13": [mut_c13_late_answer, mut_c13_lost_switch, mut_c13_stream_left_open, mut_c13_handlers, mut_c13_unanswered],
     "C10": [mut_c10_crash, mut_c10_hang, mut_c10_foreign_value, mut_c10_cap, mut_c10_beyond, mut_c10_extra],
